@@ -1,4 +1,5 @@
 import ZmqVerif.Lemmas.WorldMaps
+import ZmqVerif.Lemmas.WorldHist
 import ZmqVerif.Lemmas.WorldSendStart
 /-!
 # C09 — ROUTER labels inbound messages with the true sender and routes by first frame
@@ -123,5 +124,20 @@ theorem C09_world_router_send (w : World) (sid : Nat) (t : Bytes) (rest : Msg) (
     | _, .ready (.err _) => (ilookup s.peers t = none ∨ t = [] ∨ t.length > 255) → ∀ j, wOf w'.pipes j = wOf w.pipes j
     | _, _ => False :=
   routerSendStart_spec w sid t rest hne s hs w' f' o h
+
+
+/-- **Every message a ROUTER hands to the application, over every history** of `recv` polls and arriving bytes: it is
+labelled with the identity of the connection it was READ FROM — `log` pairs each consumed message `w` with the key `k` of
+the connection whose byte stream it came out of (`C05_world_exactly_once`: those are exactly the messages of `k`'s
+stream, in order) and with what `recv` returned: `k` as the first frame, then `w` unchanged; never an error. -/
+theorem C09_world_label {ps0 : Pipes} {m0 : Streams} {ps : Pipes} {m : Streams}
+    {taken : Ident → List Item} {rev : Nat → Bytes} {log : List (Ident × Msg × POut)}
+    (h : RecvRun .router ps0 m0 ps m taken rev log) :
+    ∀ e ∈ log, e.2.2 = .ready (.okMsg (e.1 :: e.2.1)) := by
+  intro e he
+  rcases h.log_spec e he with ⟨r, h1, h2⟩ | ⟨x, _, h2⟩
+  · simp only [deliver, Option.some.injEq] at h2
+    rw [h1, ← h2]; rfl
+  · simp [deliver] at h2
 
 end Zmq.C09
